@@ -32,6 +32,9 @@ inductive P where
   | skip (sz : Nat)
   | ifThen (csz : Nat) (cond : Node) (t e : List P)
   | loop (csz : Nat) (cond : Node) (body : List P)
+  /-- a loop whose body contains, directly, ONE `if c2 then t; exit repeat end if` (between `b1` and `b2`):
+      `cond`, `95`, b1, `c2`, `95`, t, `93 → address after the back jump`, b2, `54` -/
+  | loopX (csz : Nat) (cond : Node) (b1 : List P) (csz2 : Nat) (cond2 : Node) (t b2 : List P)
   deriving Repr, Inhabited
 
 mutual
@@ -40,6 +43,7 @@ def P.size : P → Nat
   | .skip n => n
   | .ifThen csz _ t e => csz + 3 + P.sizes t + (if e.isEmpty then 0 else 3 + P.sizes e)
   | .loop csz _ body => csz + 3 + P.sizes body + 2
+  | .loopX csz _ b1 csz2 _ t b2 => csz + 3 + (P.sizes b1 + (csz2 + 3 + P.sizes t + 3) + P.sizes b2) + 2
 def P.sizes : List P → Nat
   | [] => 0
   | p :: ps => p.size + P.sizes ps
@@ -52,6 +56,7 @@ def P.weight : P → Nat
   | .skip _ => 1
   | .ifThen _ _ t e => 1 + P.weights t + P.weights e
   | .loop _ _ body => 1 + P.weights body
+  | .loopX _ _ b1 _ _ t b2 => 2 + P.weights b1 + P.weights t + P.weights b2
 def P.weights : List P → Nat
   | [] => 0
   | p :: ps => p.weight + P.weights ps
@@ -64,6 +69,7 @@ def P.depth : P → Nat
   | .skip _ => 0
   | .ifThen _ _ t e => max (P.depths t) (P.depths e)
   | .loop _ _ body => 1 + P.depths body
+  | .loopX _ _ b1 _ _ t b2 => 1 + max (P.depths b1) (max (P.depths t) (P.depths b2))
 def P.depths : List P → Nat
   | [] => 0
   | p :: ps => max p.depth (P.depths ps)
@@ -88,6 +94,13 @@ def tgtC1 (o : Int) : P → List Node
   | .loop csz cond body =>
     [.stmt (o + csz + 3 + P.sizes body) (rawLoop o (o + csz + 3 + P.sizes body)
       (exitIf (o + csz) cond :: tgtC (o + csz + 3) body))]
+  | .loopX csz cond b1 csz2 cond2 t b2 =>
+    [.stmt (o + csz + 3 + (P.sizes b1 + (csz2 + 3 + P.sizes t + 3) + P.sizes b2))
+      (rawLoop o (o + csz + 3 + (P.sizes b1 + (csz2 + 3 + P.sizes t + 3) + P.sizes b2))
+        (exitIf (o + csz) cond :: (tgtC (o + csz + 3) b1 ++
+          .stmt (o + csz + 3 + P.sizes b1 + csz2) (.ifThen (o + csz + 3 + P.sizes b1 + csz2) cond2
+            (tgtC (o + csz + 3 + P.sizes b1 + csz2 + 3) t ++ [exitRepeatStmt (o + csz + 3 + P.sizes b1 + csz2 + 3 + P.sizes t)]) []) ::
+          tgtC (o + csz + 3 + P.sizes b1 + csz2 + 3 + P.sizes t + 3) b2)))]
 def tgtC (o : Int) : List P → List Node
   | [] => []
   | p :: ps => tgtC1 o p ++ tgtC (o + p.size) ps
@@ -114,6 +127,22 @@ def emit1 (ld : Bool) (o : Int) : P → List Node
     [.stmt (o + csz + 3 + P.sizes body) (rawLoop o (o + csz + 3 + P.sizes body)
       (if ld then exitIf (o + csz) cond :: tgtC (o + csz + 3) body
        else jzStmt (o + csz) cond (o + csz + 3 + P.sizes body + 2) :: emit ld (o + csz + 3) body))]
+  | .loopX csz cond b1 csz2 cond2 t b2 =>
+    [.stmt (o + csz + 3 + (P.sizes b1 + (csz2 + 3 + P.sizes t + 3) + P.sizes b2))
+      (rawLoop o (o + csz + 3 + (P.sizes b1 + (csz2 + 3 + P.sizes t + 3) + P.sizes b2))
+        (if ld then
+          exitIf (o + csz) cond :: (tgtC (o + csz + 3) b1 ++
+            .stmt (o + csz + 3 + P.sizes b1 + csz2) (.ifThen (o + csz + 3 + P.sizes b1 + csz2) cond2
+              (tgtC (o + csz + 3 + P.sizes b1 + csz2 + 3) t ++ [exitRepeatStmt (o + csz + 3 + P.sizes b1 + csz2 + 3 + P.sizes t)]) []) ::
+            tgtC (o + csz + 3 + P.sizes b1 + csz2 + 3 + P.sizes t + 3) b2)
+         else
+          jzStmt (o + csz) cond (o + csz + 3 + (P.sizes b1 + (csz2 + 3 + P.sizes t + 3) + P.sizes b2) + 2) ::
+            (emit ld (o + csz + 3) b1 ++
+              jzStmt (o + csz + 3 + P.sizes b1 + csz2) cond2 (o + csz + 3 + P.sizes b1 + csz2 + 3 + P.sizes t + 3) ::
+                (emit ld (o + csz + 3 + P.sizes b1 + csz2 + 3) t ++
+                  jumpStmt (o + csz + 3 + P.sizes b1 + csz2 + 3 + P.sizes t)
+                      (o + csz + 3 + (P.sizes b1 + (csz2 + 3 + P.sizes t + 3) + P.sizes b2) + 2) ::
+                    emit ld (o + csz + 3 + P.sizes b1 + csz2 + 3 + P.sizes t + 3) b2))))]
 def emit (ld : Bool) (o : Int) : List P → List Node
   | [] => []
   | p :: ps => emit1 ld o p ++ emit ld (o + p.size) ps
@@ -133,6 +162,7 @@ def P.nst : P → Nat
   | .skip _ => 0
   | .ifThen _ _ t e => 1 + P.nsts t + (if e.isEmpty then 0 else 1 + P.nsts e)
   | .loop _ _ _ => 1
+  | .loopX .. => 1
 def P.nsts : List P → Nat
   | [] => 0
   | p :: ps => p.nst + P.nsts ps
@@ -142,6 +172,13 @@ end
 def simpleCode (c : Node) : Bool :=
   c.cls != .jz && c.cls != .jump && c.cls != .ifThen && c.cls != .repeat_ && c.cls != .tell
 
+/-- no `if` directly in the list (after an `if … exit repeat end if` the scan of `condition_detect` is blind up to the end of the
+    loop body: an `if` there would stay a raw `jz` — finding F24) -/
+def P.noIfs : List P → Bool
+  | [] => true
+  | .ifThen .. :: _ => false
+  | _ :: ps => P.noIfs ps
+
 /- well-formed skeleton: the emitting instruction lies inside its fragment, simple statements are opaque, an else-branch
     that exists produces at least one statement (`e = []` means "no else": the compiler then emits no `93`) -/
 mutual
@@ -150,6 +187,7 @@ def P.wf : P → Bool
   | .skip _ => true
   | .ifThen _ _ t e => P.wfs t && P.wfs e && (e.isEmpty || decide (P.nsts e ≠ 0))
   | .loop _ _ body => P.wfs body
+  | .loopX _ _ b1 _ _ t b2 => P.wfs b1 && P.wfs t && P.wfs b2 && P.noIfs b2
 def P.wfs : List P → Bool
   | [] => true
   | p :: ps => p.wf && P.wfs ps
@@ -189,6 +227,16 @@ def rawEv1 (o : Int) : P → List Ev
   | .loop csz cond body =>
     .st (jzStmt (o + csz) cond (o + csz + 3 + P.sizes body + 2)) ::
       (rawEv (o + csz + 3) body ++ [.back (o + csz + 3 + P.sizes body) (csz + 3 + P.sizes body)])
+  | .loopX csz cond b1 csz2 cond2 t b2 =>
+    .st (jzStmt (o + csz) cond (o + csz + 3 + (P.sizes b1 + (csz2 + 3 + P.sizes t + 3) + P.sizes b2) + 2)) ::
+      (rawEv (o + csz + 3) b1 ++
+        .st (jzStmt (o + csz + 3 + P.sizes b1 + csz2) cond2 (o + csz + 3 + P.sizes b1 + csz2 + 3 + P.sizes t + 3)) ::
+          (rawEv (o + csz + 3 + P.sizes b1 + csz2 + 3) t ++
+            .st (jumpStmt (o + csz + 3 + P.sizes b1 + csz2 + 3 + P.sizes t)
+                (o + csz + 3 + (P.sizes b1 + (csz2 + 3 + P.sizes t + 3) + P.sizes b2) + 2)) ::
+              (rawEv (o + csz + 3 + P.sizes b1 + csz2 + 3 + P.sizes t + 3) b2 ++
+                [.back (o + csz + 3 + (P.sizes b1 + (csz2 + 3 + P.sizes t + 3) + P.sizes b2))
+                  (csz + 3 + (P.sizes b1 + (csz2 + 3 + P.sizes t + 3) + P.sizes b2))])))
 def rawEv (o : Int) : List P → List Ev
   | [] => []
   | p :: ps => rawEv1 o p ++ rawEv (o + p.size) ps
@@ -330,6 +378,71 @@ def Src.oks (prev : Option Node) (o : Int) : List Src → Bool
   | [] => true
   | x :: xs => x.ok prev o && Src.oks (lastOr (tgtL1 o x) prev) (o + x.size) xs
 end
+
+/-! ### loops with one `if … exit repeat end if` directly in the body (layer F4, restricted class) -/
+
+/-- the statement-level pieces a loop header puts around the loop and around its body -/
+def Hdr.pre : Hdr → List P
+  | .while_ => []
+  | .with_ pre _ => [.simple pre]
+  | .in_ presz _ _ _ => [.skip presz]
+def Hdr.inn : Hdr → List P
+  | .in_ _ bp _ _ => [.simple bp]
+  | _ => []
+def Hdr.out : Hdr → List P
+  | .while_ => []
+  | .with_ _ incr => [.simple incr]
+  | .in_ _ _ incrsz _ => [.skip incrsz]
+def Hdr.post : Hdr → List P
+  | .in_ _ _ _ postsz => [.skip postsz]
+  | _ => []
+
+/-- source skeleton with exits: `loopX h csz cond b1 csz2 cond2 t b2` =
+    `repeat <h> / b1 / if cond2 then t; exit repeat end if / b2 / end repeat` -/
+inductive SrcX where
+  | simple (s : Smp)
+  | ifThen (csz : Nat) (cond : Node) (t e : List SrcX)
+  | loop (h : Hdr) (csz : Nat) (cond : Node) (body : List SrcX)
+  | loopX (h : Hdr) (csz : Nat) (cond : Node) (b1 : List SrcX) (csz2 : Nat) (cond2 : Node) (t b2 : List SrcX)
+  deriving Repr, Inhabited
+
+mutual
+def lowerX1 : SrcX → List P
+  | .simple s => [.simple s]
+  | .ifThen csz cond t e => [.ifThen csz cond (lowerX t) (lowerX e)]
+  | .loop h csz cond body => h.pre ++ [.loop csz cond (h.inn ++ (lowerX body ++ h.out))] ++ h.post
+  | .loopX h csz cond b1 csz2 cond2 t b2 =>
+    h.pre ++ [.loopX csz cond (h.inn ++ lowerX b1) csz2 cond2 (lowerX t) (lowerX b2 ++ h.out)] ++ h.post
+def lowerX : List SrcX → List P
+  | [] => []
+  | x :: xs => lowerX1 x ++ lowerX xs
+end
+
+/-- the `exit repeat` statement `condition_detect` creates at address `q`, as a simple statement of three bytes -/
+def exitSmpAt (q : Int) : Smp := ⟨3, 0, .leaf .exitRepeat (.s (S "exit repeat")) q⟩
+
+mutual
+/-- the exit-free source skeleton whose nesting the decompiler has to print: the exit jump becomes the last statement of the
+    then-branch (`o` = address of the construct: the `exit repeat` node carries its own address) -/
+def convX1 (o : Int) : SrcX → Src
+  | .simple s => .simple s
+  | .ifThen csz cond t e => .ifThen csz cond (convX (o + csz + 3) t) (convX (o + csz + 3 + P.sizes (lowerX t) + 3) e)
+  | .loop h csz cond body => .loop h csz cond (convX (o + P.sizes h.pre + csz + 3 + P.sizes h.inn) body)
+  | .loopX h csz cond b1 csz2 cond2 t b2 =>
+    .loop h csz cond
+      (convX (o + P.sizes h.pre + csz + 3 + P.sizes h.inn) b1 ++
+        .ifThen csz2 cond2
+          (convX (o + P.sizes h.pre + csz + 3 + P.sizes h.inn + P.sizes (lowerX b1) + csz2 + 3) t ++
+            [.simple (exitSmpAt (o + P.sizes h.pre + csz + 3 + P.sizes h.inn + P.sizes (lowerX b1) + csz2 + 3 + P.sizes (lowerX t)))]) [] ::
+        convX (o + P.sizes h.pre + csz + 3 + P.sizes h.inn + P.sizes (lowerX b1) + csz2 + 3 + P.sizes (lowerX t) + 3) b2)
+def convX (o : Int) : List SrcX → List Src
+  | [] => []
+  | x :: xs => convX1 o x :: convX (o + P.sizes (lowerX1 x)) xs
+end
+
+/-- the class with exits: the lowered skeleton is well-formed (in particular: no `if` directly behind an if-exit in the same loop
+    body), and the exit-free skeleton with the exit as a statement is in the class of the exit-free theorem -/
+def SrcX.oks (o : Int) (ss : List SrcX) : Bool := P.wfs (lowerX ss) && Src.oks none o (convX o ss)
 
 /-! ### observations on the result: the statements of a tree in order, and raw jump statements -/
 
